@@ -78,6 +78,25 @@ def run_instances(run, tag, instances, nontrivial, kind_key="rolling"):
     return all_cases
 
 
+def deep_runs(run, tag, instances, num, kind_key="rolling"):
+    """Long behaviours: TLC -simulate walks each instance (history-carrying, MaxRec in the hundreds, faults /
+    crashes / restarts / obstacles / encoder failures sprinkled in) checking the invariants in every state; every
+    behaviour that reaches its end is replayed on the real appender like the exhaustive ones."""
+    total = 0
+    for i in instances:
+        cfg = write_cfg(dict(i, hist=True), tag + "_sim")
+        name = "%s_sim_%s" % (tag, i["name"])
+        cases, mism, summ, res = C.emit_and_replay(run, "MC_Rolling", cfg, name, ["rolling"], timeout=1500, workers=1,
+                                                   simulate=num, depth=25 * i["maxrec"])
+        for m in mism:
+            mm = m["mismatch"]
+            run.mismatch({"kind": mm["what"], "trig": m["params"]["trig"], "append": m["params"]["append"],
+                          "instance": i["name"], "mode": "simulate"}, m)
+        total += len(cases)
+    run.extra["simulated_long_behaviours"] = run.extra.get("simulated_long_behaviours", 0) + total
+    return total
+
+
 def concurrent_traces(run, tag, trig, limit, runs, long=0):
     """impl -> spec: several real threads append through one appender; the trace (events emitted under the
     appender's mutex, with the parsed directory) must be a behaviour of Rolling.tla (Trace_Rolling.tla)."""
